@@ -160,6 +160,21 @@ def make_pool(rng, cplx):
         def _call(self, x):
             return x.inner(self.y)
 
+    class ShiftPower(odl.Operator):
+        """out[j] = x[(j+1) mod n] ** p.  Correct out-of-place and in-place, but NOT alias-safe:
+        the in-place branch zeroes `out` before it reads `x` (like finite-difference
+        operators), so an expression class that hands it `out` as its input gets a wrong value."""
+
+        def __init__(self, space, p):
+            super(ShiftPower, self).__init__(space, space, linear=(p == 1))
+            self.p = p
+
+        def _call(self, x, out=None):
+            if out is None:
+                return self.range.element(np.roll(x.asarray(), -1) ** self.p)
+            out.set_zero()
+            out.data[...] += np.roll(x.asarray(), -1) ** self.p
+
     mk = (lambda n: odl.cn(n)) if cplx else (lambda n: odl.rn(n))
     spaces = {2: mk(2), 3: mk(3)}
 
@@ -204,6 +219,8 @@ def make_pool(rng, cplx):
         add('scale', 'scale~{}~{}'.format(n, cs(c)), odl.ScalingOperator(sp, c), True, False)
         add('ident', 'ident~{}'.format(n), odl.IdentityOperator(sp), True, False)
         add('pow2', 'pow~{}~2'.format(n), odl.PowerOperator(sp, 2), False, False)
+        add('shiftsq', 'shift~{}~2'.format(n), ShiftPower(sp, 2))
+        add('shift', 'shift~{}~1'.format(n), ShiftPower(sp, 1))
         if n == 3:
             add('pow3', 'pow~{}~3'.format(n), odl.PowerOperator(sp, 3), False, False)
         y = rvals(n, -2, 2)
@@ -404,7 +421,7 @@ def degree(ast, pool):
     """Polynomial degree bound of the expression in x (keeps float values in range)."""
     k = ast[0]
     if k == 'L':
-        return {'pow2': 2, 'pow3': 3, 'l2sq': 2, 'powf': 2, 'constf': 0, 'zerof': 0}.get(pool[ast[1]].kind, 1)
+        return {'pow2': 2, 'pow3': 3, 'l2sq': 2, 'powf': 2, 'shiftsq': 2, 'constf': 0, 'zerof': 0}.get(pool[ast[1]].kind, 1)
     a = degree(ast[1], pool)
     if k == 'pow':
         return a ** max(ast[2], 1)
@@ -941,7 +958,10 @@ def systematic_cases(ctx, pool, cplx, leaf_kinds):
     """(leaf op1) op2 for all pairs of forms: the two-level interactions."""
     rng = ctx.rng
     seen_kind = set()
-    for i, l in enumerate(pool):
+    order = sorted((i for i in range(len(pool)) if pool[i].kind in leaf_kinds),
+                   key=lambda i: leaf_kinds.index(pool[i].kind))
+    for i in order:
+        l = pool[i]
         if l.kind not in leaf_kinds or (l.kind, l.dom, l.ran) in seen_kind:
             continue
         if ctx.quick and l.dom != 'v3':
@@ -1503,9 +1523,9 @@ def _run(ctx):
     quick = ctx.quick
     n_rand = 1000 if quick else 8000
     depth = 6 if quick else 9
-    kinds_q = ('pow2', 'mat', 'l2sq', 'linf', 'inner', 'constf', 'repart')
+    kinds_q = ('pow2', 'mat', 'l2sq', 'linf', 'inner', 'constf', 'repart', 'shiftsq')
     kinds_t = ('pow2', 'pow3', 'mat', 'scale', 'ident', 'l2sq', 'linf', 'inner', 'constf', 'zerof',
-               'repart', 'impart')
+               'repart', 'impart', 'shiftsq', 'shift')
     for cplx in (False, True):
         seed = ctx.rng.getrandbits(32)
         stream(ctx, cplx, seed, lambda pool: random_cases(ctx, pool, cplx, n_rand, depth))
@@ -1529,8 +1549,9 @@ def search(ctx, broken):
     saved = ctx.tier
     ctx.tier = 'thorough'
     try:
-        kinds = ('pow2', 'pow3', 'mat', 'scale', 'l2sq', 'linf', 'inner', 'constf', 'zerof',
-                 'repart', 'impart')
+        # alias-unsafe leaves first: a broken in-place pin / _call extraction shows there
+        kinds = ('shiftsq', 'shift', 'pow2', 'pow3', 'mat', 'scale', 'l2sq', 'linf', 'inner',
+                 'constf', 'zerof', 'repart', 'impart')
         mixed_stream(ctx, count=False, deadline=deadline)
         if PENDING or time.time() > deadline:
             return
